@@ -91,27 +91,29 @@ type Site struct {
 
 // Report is what the instrumenter found and did.
 type Report struct {
-	Sites          []Site     `json:"sites"`
-	Files          []string   `json:"files"`
-	Packages       []string   `json:"packages"`
-	RootPackage    string     `json:"root_package"`
-	ModulePath     string     `json:"module_path"`
-	Globals        []string   `json:"globals"` // package-level vars of the root package
-	GlobalWrites   []string   `json:"global_write_sites"`
-	MapRangeSites  []string   `json:"map_range_sites"`  // iteration order left to Go (not seamed)
-	MapRangeSeamed []string   `json:"map_range_seamed"` // iteration order decided by the scheduler
-	SwappedImports []string   `json:"swapped_imports"`
-	TimeRedirects  int        `json:"time_redirects"`
-	GoStmts        int        `json:"go_stmts"`
-	ChanOps        int        `json:"channel_ops_rewritten"`
-	Unmodelled     []string   `json:"unmodelled"`
-	Refusals       []string   `json:"refusals"`
-	Knobs          []Knob     `json:"knobs"`
-	HashFuncs      []HashFunc `json:"narrow_hash_funcs"`
-	StrLits        []string   `json:"-"` // distinct short string literals of the source (workload dictionary)
-	TypeCheck      string     `json:"typecheck"`
-	TreeDigest     string     `json:"tree_digest"`
-	SiteDigest     string     `json:"site_digest"`
+	Sites          []Site         `json:"sites"`
+	Files          []string       `json:"files"`
+	Packages       []string       `json:"packages"`
+	RootPackage    string         `json:"root_package"`
+	ModulePath     string         `json:"module_path"`
+	Globals        []string       `json:"globals"` // package-level vars of the root package
+	GlobalWrites   []string       `json:"global_write_sites"`
+	MapRangeSites  []string       `json:"map_range_sites"`  // iteration order left to Go (not seamed)
+	MapRangeSeamed []string       `json:"map_range_seamed"` // iteration order decided by the scheduler
+	SwappedImports []string       `json:"swapped_imports"`
+	TimeRedirects  int            `json:"time_redirects"`
+	GoStmts        int            `json:"go_stmts"`
+	ChanOps        int            `json:"channel_ops_rewritten"`
+	Unmodelled     []string       `json:"unmodelled"`
+	Refusals       []string       `json:"refusals"`
+	Knobs          []Knob         `json:"knobs"`
+	HashFuncs      []HashFunc     `json:"narrow_hash_funcs"`
+	StrLits        []string       `json:"-"` // distinct short string literals of the source (workload dictionary)
+	CmpInts        []int64        `json:"-"` // integer literals >= 1024 used in comparisons (threshold candidates)
+	BaselineCmp    map[int64]bool `json:"-"` // such literals of the baseline (pinned) tree: never treated as knobs
+	TypeCheck      string         `json:"typecheck"`
+	TreeDigest     string         `json:"tree_digest"`
+	SiteDigest     string         `json:"site_digest"`
 }
 
 type edit struct {
@@ -205,8 +207,12 @@ func InstrumentShrunk(plainDir, dstDir, simDir string, shrink map[int]string) (*
 
 // InstrumentVariant additionally weakens the narrow hash functions named in
 // weaken (hash func id -> number of result bits kept).
+// BaselineCmpInts: comparison literals of the pinned tree (set by the driver
+// from corpus/baseline_cmpints.lst before instrumenting); nil disables threshold knobs.
+var BaselineCmpInts map[int64]bool
+
 func InstrumentVariant(plainDir, dstDir, simDir string, shrink map[int]string, weaken map[int]int) (*Report, error) {
-	rep := &Report{}
+	rep := &Report{BaselineCmp: BaselineCmpInts}
 	var files []string
 	err := filepath.Walk(plainDir, func(p string, info os.FileInfo, err error) error {
 		if err != nil {
@@ -964,6 +970,18 @@ func collectKnobs(fset *token.FileSet, all []*fileCtx, rep *Report, info *types.
 						note(fc, x.Y, "lencmp", true)
 					} else if hasLenCall(x.Y, info) {
 						note(fc, x.X, "lencmp", true)
+					} else if x.Op != token.EQL && x.Op != token.NEQ {
+						// a large literal compared with something that is not a length: an
+						// event-count / byte-count threshold. Only literals the baseline tree
+						// does not contain are candidates.
+						for _, side := range []ast.Expr{x.X, x.Y} {
+							if v, ok := intLit(side); ok && v >= 1024 {
+								rep.CmpInts = append(rep.CmpInts, v)
+								if rep.BaselineCmp != nil && !rep.BaselineCmp[v] && !lenOfString(x, info) {
+									inl = append(inl, inline{fc, ast.Unparen(side), v, "threshold"})
+								}
+							}
+						}
 					}
 				case token.AND:
 					if be, ok := ast.Unparen(x.Y).(*ast.BinaryExpr); ok && be.Op == token.SUB {
@@ -1343,4 +1361,24 @@ func looksLikeHash(fd *ast.FuncDecl) bool {
 		return true
 	})
 	return loop && mix
+}
+
+// lenOfString reports whether a comparison involves len() of a string (input
+// length thresholds are not shrunk: that would switch the guarded path on or
+// off rather than stress it).
+func lenOfString(be *ast.BinaryExpr, info *types.Info) bool {
+	found := false
+	ast.Inspect(be, func(n ast.Node) bool {
+		if c, ok := n.(*ast.CallExpr); ok && len(c.Args) == 1 {
+			if id, ok := c.Fun.(*ast.Ident); ok && id.Name == "len" && info != nil {
+				if tv, ok := info.Types[c.Args[0]]; ok && tv.Type != nil {
+					if b, ok := tv.Type.Underlying().(*types.Basic); ok && b.Info()&types.IsString != 0 {
+						found = true
+					}
+				}
+			}
+		}
+		return !found
+	})
+	return found
 }
